@@ -1,0 +1,49 @@
+// Copyright 2022 Yahoo Inc.
+// Licensed under the terms of the Apache License 2.0. Please see LICENSE file in project root for terms.
+
+package shimagent
+
+import (
+	"fmt"
+
+	"golang.org/x/crypto/ssh"
+	"golang.org/x/crypto/ssh/agent"
+)
+
+// safeAgent wraps the client of the underlying ssh-agent.
+// The x/crypto client panics ("unreachable") when the agent answers a list or sign
+// request with a well-formed message of an unexpected type. The shim agent serves
+// every connection of the daemon, so such a reply must surface as an error instead.
+type safeAgent struct {
+	agent.ExtendedAgent
+}
+
+func recoverAgentPanic(err *error) {
+	if r := recover(); r != nil {
+		*err = fmt.Errorf("agent: unexpected response from the underlying agent: %v", r)
+	}
+}
+
+// List returns the identities known to the underlying agent.
+func (a safeAgent) List() (keys []*agent.Key, err error) {
+	defer recoverAgentPanic(&err)
+	return a.ExtendedAgent.List()
+}
+
+// Sign has the underlying agent sign the data using a protocol 2 key.
+func (a safeAgent) Sign(key ssh.PublicKey, data []byte) (sig *ssh.Signature, err error) {
+	defer recoverAgentPanic(&err)
+	return a.ExtendedAgent.Sign(key, data)
+}
+
+// SignWithFlags signs like Sign, but allows for additional flags to be sent/received.
+func (a safeAgent) SignWithFlags(key ssh.PublicKey, data []byte, flags agent.SignatureFlags) (sig *ssh.Signature, err error) {
+	defer recoverAgentPanic(&err)
+	return a.ExtendedAgent.SignWithFlags(key, data, flags)
+}
+
+// Signers returns signers for all the known keys of the underlying agent.
+func (a safeAgent) Signers() (signers []ssh.Signer, err error) {
+	defer recoverAgentPanic(&err)
+	return a.ExtendedAgent.Signers()
+}
